@@ -194,6 +194,15 @@ def check_partition(st, doc, text, shp, pos, node, seg):
         st.sig("part", shp, paths.sig((seg,)), len(plain), len(inverted))
     case = {"kind": "partition", "doc": text, "at": list(map(str, pos)),
             "path": paths.render(prefix + (seg,), "/")}
+    want = expected_plain(node, attr, op, term)
+    if want is not None:
+        st.extra["partition_sides_decided"] += 1
+        if sorted(plain) != sorted(want):
+            st.fail("partition-sides:%s" % paths.sig((seg,)), case,
+                    "plain = the %d candidates the operator accepts"
+                    % len(want), "plain %d, inverted %d" % (
+                        len(plain), len(inverted)))
+            return
     if set(plain) & set(inverted):
         st.fail("partition-overlap:%s" % paths.sig((seg,)), case,
                 "disjoint", "%d common" % len(set(plain) & set(inverted)))
@@ -201,6 +210,37 @@ def check_partition(st, doc, text, shp, pos, node, seg):
         st.fail("partition-cover:%s" % paths.sig((seg,)), case,
                 "%d candidates" % len(cands),
                 "plain %d + inverted %d" % (len(plain), len(inverted)))
+
+
+def expected_plain(node, attr, op, term):
+    """Which candidates of a LIST the plain search accepts, decided per
+    candidate from the operator table alone (None: not decided here).  A
+    candidate without the attribute is never accepted by the plain search -
+    whatever the verdict on its neighbours was."""
+    if not corpus.is_list(node):
+        return None
+    want = []
+    for ele in node:
+        if attr == ".":
+            if not corpus.is_scalar(ele):
+                return None
+            value = ele
+        elif corpus.is_map(ele):
+            if attr not in ele:
+                continue
+            value = ele[attr]
+            if not corpus.is_scalar(value):
+                return None
+        elif corpus.is_scalar(ele):
+            continue
+        else:
+            return None
+        verdict = refmatch.match(op, term, value)
+        if verdict is refmatch.UNSPECIFIED:
+            return None
+        if verdict:
+            want.append(id(ele))
+    return want
 
 
 def explore(tier, seed):
